@@ -1043,14 +1043,57 @@ def model_doc(c):
     return d
 
 
+TOKEN_CHARS = set("!#$%&'*+-.^_`|~0123456789abcdefghijklmnopqrstuvwxyzABCDEFGHIJKLMNOPQRSTUVWXYZ")
+
+
+def canon(key):
+    """textproto.CanonicalMIMEHeaderKey: first letter and letters after '-' upper case, the rest lower
+    case; a key with a character outside the token alphabet is left as it is"""
+    if not key or any(ch not in TOKEN_CHARS for ch in key):
+        return key
+    out, up = [], True
+    for ch in key:
+        out.append(ch.upper() if up else ch.lower())
+        up = ch == "-"
+    return "".join(out)
+
+
+def canon_type(t):
+    """header parameters: go-zero compares keys (and the keys dependencies name) in canonical form"""
+    k = t["k"]
+    if k in ("ptr", "slice", "map"):
+        return {"k": k, "e": canon_type(t["e"])}
+    if k != "struct":
+        return t
+    fs = []
+    for f in t["f"]:
+        g = dict(f)
+        if not f.get("anon"):
+            g["key"] = canon(f["key"])
+        if f.get("o") and f["o"].get("dep"):
+            g["o"] = dict(f["o"])
+            g["o"]["dep"] = canon(f["o"]["dep"])
+        g["t"] = canon_type(f["t"])
+        fs.append(g)
+    return {"k": "struct", "f": fs}
+
+
+def canon_doc(d):
+    if d is None or "o" not in d:
+        return d
+    return {"o": [{"k": canon(kv["k"]), "v": kv["v"]} for kv in d["o"]]}
+
+
 def passes_of(c, obs):
     """the passes of one call: (Gallina kcfg, the type as that unmarshaller sees it, its document,
     the observed target restricted to its fields)"""
     val = obs.get("val") if obs else None
     if c["mode"] != "parse":
         tag, kc = ENTRY[c["mode"]]
-        return [{"tag": tag, "kc": kc, "type": view_type(c["type"], tag), "doc": model_doc(c),
-                 "val": project_val(c["type"], tag, val)}]
+        t, d = view_type(c["type"], tag), model_doc(c)
+        if tag == "header":
+            t, d = canon_type(t), canon_doc(d)
+        return [{"tag": tag, "kc": kc, "type": t, "doc": d, "val": project_val(c["type"], tag, val)}]
     rq = c["req"]
     dual = {int(i): t for i, t in (c.get("dual") or {}).items()}
     res = []
@@ -1068,7 +1111,10 @@ def passes_of(c, obs):
             d = header_doc(rq.get("header") or dobj([]))
         else:
             d = dobj([]) if rq.get("postform") else body_doc(rq.get("body"), rq.get("bodydoc"), rq.get("ctype"))
-        res.append({"tag": tag, "kc": PASS_KC[tag], "type": view_type(t, tag), "doc": d,
+        vt = view_type(t, tag)
+        if tag == "header":
+            vt, d = canon_type(vt), canon_doc(d)
+        res.append({"tag": tag, "kc": PASS_KC[tag], "type": vt, "doc": d,
                     "val": project_val(c["type"], tag, val, full_drop)})
     return res
 
@@ -1879,6 +1925,29 @@ def slice_defaults(rng):
     return cases
 
 
+def header_keys(rng):
+    """header parameters: tag keys, dependency keys and request header names in different spellings
+    of the same canonical name; members of embedded structs; through ParseHeaders and Parse"""
+    cases = []
+    i = P("int")
+    names = [("x-trace-id", "X-TRACE-ID"), ("X-Trace-Id", "x-trace-id"), ("x-Trace-iD", "X-trace-Id"), ("ETag", "etag"),
+             ("content-MD5", "Content-Md5"), ("x_under", "X_UNDER"), ("a.b-c", "A.B-C")]
+    for tagkey, reqkey in names:
+        for mode in ("header", "httpx-header"):
+            for o in (O(range=R("[1:5]")), O(opt=True, range=R("[1:5]")), O(opt=True, dep="x-dep"), O(opt=True, dep="X-DEP", neg=True),
+                      O(**{"def": "2"}), None):
+                fs = [F(tagkey, i, copy.deepcopy(o)), F("x-Dep", i, O(opt=True))]
+                for pairs in ([(reqkey, ds("3"))], [(reqkey, ds("9"))], [], [(reqkey, ds("3")), ("X-dep", ds("1"))], [("x-DEP", ds("1"))]):
+                    cases.append(finish({"mode": mode, "type": St(*copy.deepcopy(fs)), "doc": dobj(pairs), "direct": len(pairs) % 2 == 0,
+                                         "intent": "header-keys"}))
+            inner = St(F(tagkey, P("uint8")), F("x-other", i, O(opt=True)))
+            for optional in (False, True):
+                for pairs in ([(reqkey, ds("2"))], [], [("X-Other", ds("4"))], [(reqkey, ds("2")), ("x-OTHER", ds("4"))]):
+                    cases.append(finish({"mode": mode, "type": St(A(copy.deepcopy(inner), optional)), "doc": dobj(pairs),
+                                         "intent": "header-keys"}))
+    return cases
+
+
 def depchains(rng):
     """optional=dep / optional=!dep chains and cycles over three fields, self-dependencies,
     dependencies on keys that no field has, on dotted keys, on "-"; every subset of supplied fields"""
@@ -2219,6 +2288,7 @@ class C08(Property):
             cases += zeros(rng)
             cases += slice_defaults(rng)
             cases += depchains(rng)
+            cases += header_keys(rng)
             cases += ctypes(rng)
         cases += boundaries(rng, 380 if not big else 6000)
         cases += frontends(rng, 150 if not big else 1500)
